@@ -332,6 +332,21 @@ def check(prop, tier, seed):
                 violations.append((inv, path))
         if M.get("sample"):
             cov["samples"].append({"kind": "model", "model": mname, "cfg": cfgfile, "note": M["sample"]})
+    # 1b. TLAPS proofs of unbounded lemmas (a bonus that never gates the verdict: failure to discharge is reported, not a violation)
+    for pf in P.get("proofs", []):
+        t1 = time.time()
+        rc, o, e = sh(["timeout", "600", "tlapm", "--threads", "4", pf], cwd=SPEC, timeout=630)
+        m = re.search(r"All (\d+) obligations? proved", o + e)
+        m2 = re.search(r"(\d+)/(\d+) obligations? failed", o + e)
+        pr = {"file": "spec/" + pf, "wall_s": round(time.time() - t1, 1)}
+        if m:
+            pr.update({"obligations": int(m.group(1)), "discharged": int(m.group(1))})
+        elif m2:
+            pr.update({"obligations": int(m2.group(2)), "discharged": int(m2.group(2)) - int(m2.group(1))})
+            log(f"note: TLAPS left {m2.group(1)} obligation(s) of {pf} unproved")
+        else:
+            pr.update({"obligations": 0, "discharged": 0, "error": (o + e)[-300:]})
+        cov.setdefault("tlaps", []).append(pr)
     # 2. conformance: traces of the real contracts judged by the trace specification
     seen_distinct = set()
     for famname in P.get("families", []):
